@@ -5,6 +5,7 @@ import (
 	"fmt"
 	"testing"
 
+	"github.com/Breeze0806/gobinlog"
 	"github.com/Breeze0806/gobinlog/replication"
 	"pgregory.net/rapid"
 
@@ -75,6 +76,9 @@ func checkTableMap(c *TableMapCase) error {
 //	Mode 0: one table id re-announced with changed column types (same name, same column count)
 //	Mode 1: one table id re-bound to a different table
 //	Mode 2: the mapper reports a wrong column count for one table
+//	Mode 3: ALTER TABLE between two transactions: the table comes back under a NEW id with the same name and
+//	        column count but other signedness / column names; the mapper answers with the old definition until
+//	        the DDL transaction has been delivered and with the new one afterwards
 type RebindCase struct {
 	Cfg     hist.Cfg
 	A, B    hist.Table // Mode 0/1: B shares A's id
@@ -89,7 +93,7 @@ type RebindCase struct {
 func (c *RebindCase) history() *hist.History {
 	h := &hist.History{Cfg: c.Cfg, FirstFile: "bin.000007"}
 	a, b := c.A, c.B
-	if c.Mode != 2 {
+	if c.Mode == 0 || c.Mode == 1 {
 		b.ID = a.ID
 	} else if b.ID == a.ID {
 		b.ID = a.ID + 1
@@ -117,6 +121,41 @@ func (c *RebindCase) history() *hist.History {
 func checkRebind(c *RebindCase) error {
 	h := c.history()
 	e := &E2ECase{H: h}
+	if c.Mode == 3 {
+		l, start, su, err := e.layout()
+		if err != nil {
+			return fmt.Errorf("harness: %v", err)
+		}
+		exp := l.Expected(start, su)
+		ss, err := newSession(h.Tables, 15, start)
+		if err != nil {
+			return fmt.Errorf("harness: %v", err)
+		}
+		defer ss.close()
+		altered := false
+		key := h.Tables[0].DB + "\x00" + h.Tables[0].Name
+		ss.mp.tables[key] = &h.Tables[0]
+		handler := func(tx *gobinlog.Transaction, st *attemptState) error {
+			for _, ev := range tx.Events {
+				if ev.Type == gobinlog.StatementAlter && !altered {
+					altered = true
+					ss.mp.mu.Lock()
+					ss.mp.tables[key] = &h.Tables[1] // from now on the mapper describes the altered table
+					ss.mp.mu.Unlock()
+				}
+			}
+			return nil
+		}
+		st := ss.run(attempt{l: l, handler: handler})
+		st.drainLib()
+		if err := st.panicErr(); err != nil {
+			return err
+		}
+		if err := compareTxs(st.got, exp, true); err != nil {
+			return fmt.Errorf("%v [stream err: %v]", err, st.streamErr)
+		}
+		return nil
+	}
 	if c.Mode != 2 {
 		st, exp, _, err := runE2E(e)
 		if err != nil {
@@ -234,6 +273,57 @@ func checkAttribution(c *E2ECase) error {
 	return nil
 }
 
+// drawRebind draws an attribution scenario of the given mode.
+func drawRebind(rt *rapid.T, mode int) *RebindCase {
+	c := &RebindCase{Cfg: gen.Config(rt), Mode: mode, SameTx: rapid.Bool().Draw(rt, "same_tx"), Between: rapid.IntRange(0, 2).Draw(rt, "between")}
+	c.Cfg.NHeaderSizes = 40
+	copt := gen.ColumnOpt{NoHeavy: true, NoJSON: true}
+	c.A = wideTable(rt, 8, copt, c.Cfg.TableIDBytes)
+	c.A.DB, c.A.Name = "d", "t1"
+	switch c.Mode {
+	case 0: // same table, same column count, other types
+		c.B = hist.Table{DB: "d", Name: "t1"}
+		for i := range c.A.Cols {
+			c.A.Cols[i].Unsigned = false
+			col := gen.Column(rt, copt)
+			col.Name, col.Unsigned = c.A.Cols[i].Name, false
+			c.B.Cols = append(c.B.Cols, col)
+		}
+	case 1:
+		c.B = wideTable(rt, 8, copt, c.Cfg.TableIDBytes)
+		c.B.DB, c.B.Name = "d", "t2"
+		for i := range c.B.Cols {
+			c.B.Cols[i].Name = fmt.Sprintf("other%d", i)
+		}
+	case 3: // ALTER: same name and column count, new id, integer columns flip their signedness, names change
+		c.SameTx, c.Between = false, 1
+		iopt := gen.ColumnOpt{Only: []byte{refenc.TTiny, refenc.TShort, refenc.TInt24, refenc.TLong, refenc.TLongLong, refenc.TVarchar}, NoHeavy: true}
+		c.A = wideTable(rt, 6, iopt, c.Cfg.TableIDBytes)
+		c.A.DB, c.A.Name = "d", "t1"
+		c.B = hist.Table{DB: "d", Name: "t1", ID: c.A.ID + 1}
+		for i, col := range c.A.Cols {
+			nb := col
+			nb.Unsigned = !col.Unsigned || rapid.Bool().Draw(rt, "keep_unsigned")
+			if rapid.Bool().Draw(rt, "flip") {
+				nb.Unsigned = !col.Unsigned
+			}
+			if rapid.Bool().Draw(rt, "rename") {
+				nb.Name = fmt.Sprintf("renamed%d", i)
+			}
+			c.B.Cols = append(c.B.Cols, nb)
+		}
+	default:
+		c.B = wideTable(rt, 8, copt, c.Cfg.TableIDBytes)
+		c.B.DB, c.B.Name = "d", "t2"
+		c.B.ID = c.A.ID + 1
+		c.Delta = rapid.SampledFrom([]int{-1, 1, 2, -100}).Draw(rt, "delta")
+	}
+	ho := gen.HistOpt{MaxRows: 2, Lim: limits()}
+	c.RowsA = gen.RowsEvent(rt, []hist.Table{c.A}, 0, gen.NewClock(), ho)
+	c.RowsB = gen.RowsEvent(rt, []hist.Table{c.B}, 0, gen.NewClock(), ho)
+	return c
+}
+
 func TestC15(t *testing.T) {
 	rec := recorder("C15")
 	defer rec.Flush(t)
@@ -284,35 +374,7 @@ func TestC15(t *testing.T) {
 				rt.Fatalf("C15 violation: %v", err)
 			}
 		case 1: // (b) re-announcement / re-binding / count mismatch
-			c := &RebindCase{Cfg: gen.Config(rt), Mode: rapid.IntRange(0, 2).Draw(rt, "mode"), SameTx: rapid.Bool().Draw(rt, "same_tx"), Between: rapid.IntRange(0, 2).Draw(rt, "between")}
-			c.Cfg.NHeaderSizes = 40
-			copt := gen.ColumnOpt{NoHeavy: true, NoJSON: true}
-			c.A = wideTable(rt, 8, copt, c.Cfg.TableIDBytes)
-			c.A.DB, c.A.Name = "d", "t1"
-			switch c.Mode {
-			case 0: // same table, same column count, other types
-				c.B = hist.Table{DB: "d", Name: "t1"}
-				for i := range c.A.Cols {
-					c.A.Cols[i].Unsigned = false
-					col := gen.Column(rt, copt)
-					col.Name, col.Unsigned = c.A.Cols[i].Name, false
-					c.B.Cols = append(c.B.Cols, col)
-				}
-			case 1:
-				c.B = wideTable(rt, 8, copt, c.Cfg.TableIDBytes)
-				c.B.DB, c.B.Name = "d", "t2"
-				for i := range c.B.Cols {
-					c.B.Cols[i].Name = fmt.Sprintf("other%d", i)
-				}
-			default:
-				c.B = wideTable(rt, 8, copt, c.Cfg.TableIDBytes)
-				c.B.DB, c.B.Name = "d", "t2"
-				c.B.ID = c.A.ID + 1
-				c.Delta = rapid.SampledFrom([]int{-1, 1, 2, -100}).Draw(rt, "delta")
-			}
-			ho := gen.HistOpt{MaxRows: 2, Lim: limits()}
-			c.RowsA = gen.RowsEvent(rt, []hist.Table{c.A}, 0, gen.NewClock(), ho)
-			c.RowsB = gen.RowsEvent(rt, []hist.Table{c.B}, 0, gen.NewClock(), ho)
+			c := drawRebind(rt, rapid.IntRange(0, 3).Draw(rt, "mode"))
 			rec.Case(true, c, fmt.Sprintf("rebind/mode=%d", c.Mode), fmt.Sprintf("rebind/sameTx=%v", c.SameTx))
 			rec.Sample(c)
 			journal("C15", "c15rebind", c)
